@@ -80,6 +80,14 @@ func VerifNewSender(mds int64, reno bool) *VerifSender {
 	return &VerifSender{C: c, Rtt: rtt}
 }
 
+// VerifNewSenderW uses the package's unexported constructor (as its unit tests do) to start
+// from an arbitrary initial / maximum window: exercises the window arithmetic on extreme values.
+func VerifNewSenderW(mds int64, reno bool, icw, imax int64) *VerifSender {
+	rtt := utils.NewRTTStats()
+	c := newCubicSender(DefaultClock{}, rtt, &utils.ConnectionStats{}, reno, protocol.ByteCount(mds), protocol.ByteCount(icw), protocol.ByteCount(imax), nil)
+	return &VerifSender{C: c, Rtt: rtt}
+}
+
 func (v *VerifSender) State() VerifState {
 	c := v.C
 	return VerifState{
